@@ -178,6 +178,12 @@ static void WOPN_parseInstrument(WOPNInstrument *ins, uint8_t *cursor, uint16_t 
         if((version < 3) && ins->delay_on_ms == 0 && ins->delay_off_ms == 0)
             ins->inst_flags |= WOPN_Ins_IsBlank;
     }
+    else
+    {
+        /* The format carries no sounding delays here: don't leave them as the caller's structure had them */
+        ins->delay_on_ms  = 0;
+        ins->delay_off_ms = 0;
+    }
 }
 
 static void WOPN_writeInstrument(WOPNInstrument *ins, uint8_t *cursor, uint16_t version, uint8_t has_sounding_delays)
